@@ -154,7 +154,12 @@ func (e *vmEnvironment) newVMConfig() *vm.Config {
 	conf.ValidateAccountCapabilitiesGetHandler = newValidateAccountCapabilitiesGetHandler(&e.Interface)
 	conf.ValidateAccountCapabilitiesPublishHandler = newValidateAccountCapabilitiesPublishHandler(&e.Interface)
 	conf.ElaborationResolver = e.resolveElaboration
-	conf.StackDepthLimit = defaultStackDepthLimit
+	// Use the configured stack depth limit, like the interpreter environment does
+	// (see newStackDepthLimiter); fall back to the default if none is configured.
+	conf.StackDepthLimit = e.config.StackDepthLimit
+	if conf.StackDepthLimit == 0 {
+		conf.StackDepthLimit = defaultStackDepthLimit
+	}
 
 	if interpreter.TracingEnabled {
 		conf.Tracer = interpreter.CallbackTracer(newOnRecordTraceHandler(&e.Interface))
